@@ -129,8 +129,16 @@ class DerivCheckUnit(Unit):
         c = case["corrupt"]
         spec = Spec.from_json(case["spec"])
         sc = case["sc"] or {"vw": [0] * spec.n, "cw": [0] * spec.m, "ow": 0}
+        # "well-scaled": the truncation error of the difference quotient (eps/2 times the curvature the checker sees, i.e.
+        # of the scaled problem) is well below the tolerance; otherwise a rejection of correct derivatives is legitimate
+        trunc = 0.0
+        for j in range(spec.n):
+            trunc = max(trunc, 0.5 * case["eps"] * abs(spec.P[j][j]) * 2.0 ** (sc["ow"] - 2 * sc["vw"][j]))
+            for i in range(spec.m):
+                trunc = max(trunc, 0.5 * case["eps"] * abs(spec.A[i][j][j]) * 2.0 ** (sc["cw"][i] - 2 * sc["vw"][j]))
+        well_scaled = trunc <= 0.25 * case["atol"]
         if c is None:
-            if r["res"] is not None:
+            if r["res"] is not None and well_scaled:
                 return "false_positive: correct derivatives rejected at rows %r column %r" % (r["res"][0], r["res"][1])
         else:
             which, rr, cc, delta = c
